@@ -12,6 +12,10 @@ R05c  a decoded DATA_FRAG never carries fragment_size == 0 (the reader divides b
 R05d  NACK_FRAG requests are honoured only when fresh (count > last_received_nack_frag_count) and
       the reader increments its nack_frag_count for every NACK_FRAG it builds — otherwise the first
       request carries count 0 and is filtered by the writer.
+R05g  completeness of a fragmented sample is decided by *counting* the buffered fragments, so a fragment must never be
+      buffered twice: every push into RtpsWriterProxy::frag_buffer is reached only through the "not present" outcome of a
+      membership test over the whole buffer (`contains`, `iter().any / all / find / position`); a duplicated datagram plus
+      a lost fragment would otherwise make a truncated sample count as complete (and be acknowledged).
 Byte-identical reassembly under reordering is not decided.
 """
 from vplib import expr as E
@@ -87,8 +91,25 @@ def is_fragment_count(e):
     return E.is_call(e, "div_ceil") or (e[0] == "call" and e[1].endswith("div_ceil"))
 
 
+def _range_upper_test(e):
+    """`(a..b).contains(&x)` read as `x < b`, `(a..=b).contains(&x)` as `x <= b` (the upper bound is the one that matters for
+    a fragment count); None for anything else"""
+    e = E.strip_casts(e)
+    if e[0] != "call" or e[1].split("::")[-1] != "contains" or len(e[2]) != 2:
+        return None
+    r, x = E.strip_casts(e[2][0]), E.strip_casts(e[2][1])
+    if r[0] == "adt" and r[2] in ("Range", "RangeTo") and r[3]:
+        return ("Lt", x, r[3][-1])
+    if r[0] == "adt" and r[2] == "RangeToInclusive" and r[3]:
+        return ("Le", x, r[3][-1])
+    if r[0] == "call" and r[1].endswith("RangeInclusive::new") and len(r[2]) == 2:
+        return ("Le", x, r[2][1])
+    return None
+
+
 def callers(facts, rep, want, pidx):
     n = 0
+    nb = [0]
     for ob in facts.bodies.values():
         if not ob.is_fn_like() or not ob.calls_any("as_data_frag_submessage"):
             continue
@@ -107,7 +128,7 @@ def callers(facts, rep, want, pidx):
                 subj = E.strip_casts(a0[2])
             sb = frag_base(subj)
             for sbb, ce in fc.ces.items():
-                c = cmp_norm(ce.expr)
+                c = cmp_norm(ce.expr) or _range_upper_test(ce.expr)
                 if c is None:
                     continue
                 op, x, y = c
@@ -123,10 +144,12 @@ def callers(facts, rep, want, pidx):
                         if via_f and not via_t:
                             op = {"Lt": "Ge", "Ge": "Lt", "Gt": "Le", "Le": "Gt", "Eq": "Ne", "Ne": "Eq"}.get(op, op)
                     good = {"B0": ("Lt",), "B1": ("Le",)}.get(sb, ())
+                    nb[0] += 1
                     rep.add("R05a", ob.sname, "bound test of a %s fragment value against the fragment count" % sb, op in good,
                             "`%s %s count` is wrong for a %s value: %s" % (fc.show(subj)[:60], op, sb,
                             "the last fragment can never be requested" if sb == "B1" else "one past the end is accepted"),
                             ob.loc(fc.mir.blocks[sbb].term.line))
+    rep.floor("R05a-bound", nb[0], 1, "bound tests of a requested fragment number against the fragment count")
     return n
 
 
@@ -308,8 +331,48 @@ def reassembly_same_sample(facts, rep):
     return n
 
 
+def no_duplicate_fragments(facts, rep):
+    """R05g: pushes into frag_buffer only behind a whole-buffer membership test."""
+    n = 0
+    for b in facts.find_fns(self_ty="RtpsWriterProxy"):
+        if not b.calls_any("Vec::push"):
+            continue
+        fc = FnCtx(b)
+        ev = []
+        for bb, t in fc.calls("Vec::push"):
+            a = fc.arg(t, 0)
+            if E.mentions_field(a, "frag_buffer"):
+                ev.append((bb, t))
+        if not ev:
+            continue
+
+        def guard(e, outcome, ce=None):
+            e0 = E.strip_casts(e)
+            if e0[0] == "call" and E.mentions_field(e0, "frag_buffer"):
+                nm = e0[1].split("::")[-1]
+                if nm in ("contains", "any"):
+                    return outcome == "false"
+                if nm == "all":
+                    return outcome == "true"
+            if e0[0] == "discr" and e0[1][0] == "call" and E.mentions_field(e0[1], "frag_buffer") \
+                    and e0[1][1].split("::")[-1] in ("find", "position", "rposition"):
+                return outcome == 0
+            return False
+        found = fc.reach_avoiding([bb for bb, _ in ev], guard)
+        for bb, t in ev:
+            n += 1
+            rep.add("R05g", b.sname, "a fragment is buffered only when the buffer does not hold it yet (whole-buffer membership test)",
+                    bb not in found,
+                    "frag_buffer.push is reachable without a `contains`-style test over the whole buffer: a duplicated DATA_FRAG is "
+                    "counted twice by reconstruct_data_from_frag, so with one fragment lost a truncated sample is taken as complete; "
+                    "witness blocks %s" % (found.get(bb),), b.loc(t.line))
+    return n
+
+
 def run(ctx, rep):
     fx = ctx.facts
+    n7 = no_duplicate_fragments(fx, rep)
+    rep.floor("R05g", n7, 1, "pushes into RtpsWriterProxy::frag_buffer")
     n5 = reassembly_order(fx, rep)
     rep.floor("R05e", n5, 1, "payload appends in reconstruct_data_from_frag")
     n6 = reassembly_same_sample(fx, rep)
